@@ -15,6 +15,26 @@ import (
 type c3Layer struct {
 	ref  string // "e" (empty digest), "b" (bad format) or 64 hex digits
 	size int64
+	mt   int // media type: 0 = the usual one for the position (model layer / config), k > 0 = c3MediaTypes[k]
+}
+
+// c3MediaTypes: the alphabet of descriptor media types a (re-)published manifest may carry besides the default.
+var c3MediaTypes = []string{"", "application/vnd.ollama.image.template", "application/vnd.ollama.image.license",
+	"application/vnd.ollama.image.params", "application/vnd.ollama.image.adapter", "application/octet-stream"}
+
+func (l c3Layer) refTok() string {
+	if l.mt == 0 {
+		return l.ref
+	}
+	return l.ref + "@" + strconv.Itoa(l.mt)
+}
+
+func c3ParseRef(t string) (string, int) {
+	if i := strings.IndexByte(t, '@'); i >= 0 {
+		k, _ := strconv.Atoi(t[i+1:])
+		return t[:i], k
+	}
+	return t, 0
 }
 
 type c3Manifest struct {
@@ -69,6 +89,26 @@ type c3Attempt struct {
 	tokShape []string // JSON shape of the i-th scripted token answer ("" = the usual one); consistent with tok[i]
 	validate bool     // the registry really validates bearer tokens (tokens of earlier attempts are expired); the
 	//                   401 at the head of ms is then produced by that validation, not by the script
+	reg *c3Manifest // the tag was re-published: the manifest the registry serves in THIS attempt (nil = the case's reg)
+}
+
+// regOf: the manifest the registry serves in attempt a.
+func (c *c3Case) regOf(a *c3Attempt) c3Manifest {
+	if a != nil && a.reg != nil {
+		return *a.reg
+	}
+	return c.reg
+}
+
+// allRegs: every manifest served at some point of the history.
+func (c *c3Case) allRegs() []c3Manifest {
+	out := []c3Manifest{c.reg}
+	for i := range c.attempts {
+		if c.attempts[i].reg != nil {
+			out = append(out, *c.attempts[i].reg)
+		}
+	}
+	return out
 }
 
 type c3Man struct {
@@ -110,9 +150,9 @@ func c3b(b bool) string {
 func (m c3Manifest) line(sb *strings.Builder) {
 	fmt.Fprintf(sb, " %d", len(m.layers))
 	for _, l := range m.layers {
-		fmt.Fprintf(sb, " %s %s", l.ref, c3SizeTok(l.size))
+		fmt.Fprintf(sb, " %s %s", l.refTok(), c3SizeTok(l.size))
 	}
-	fmt.Fprintf(sb, " %s %s", m.config.ref, c3SizeTok(m.config.size))
+	fmt.Fprintf(sb, " %s %s", m.config.refTok(), c3SizeTok(m.config.size))
 }
 
 func (r c3Reply) line(sb *strings.Builder) {
@@ -188,6 +228,12 @@ func (a c3Attempt) line(sb *strings.Builder) {
 		sb.WriteString(" " + t)
 	}
 	sb.WriteString(" validate " + c3b(a.validate))
+	if a.reg == nil {
+		sb.WriteString(" rereg 0")
+	} else {
+		sb.WriteString(" rereg 1")
+		a.reg.line(sb)
+	}
 }
 
 // line renders the oracle command of the case.
@@ -274,11 +320,11 @@ func (p *c3Toks) manifest() c3Manifest {
 	var m c3Manifest
 	n := int(p.nat())
 	for i := 0; i < n; i++ {
-		r := p.tok()
-		m.layers = append(m.layers, c3Layer{r, p.size()})
+		r, mt := c3ParseRef(p.tok())
+		m.layers = append(m.layers, c3Layer{r, p.size(), mt})
 	}
-	r := p.tok()
-	m.config = c3Layer{r, p.size()}
+	r, mt := c3ParseRef(p.tok())
+	m.config = c3Layer{r, p.size(), mt}
 	return m
 }
 
@@ -396,10 +442,12 @@ func (c *c3Case) fixUniv() {
 		}
 		add(m.m.config.ref)
 	}
-	for _, l := range c.reg.layers {
-		add(l.ref)
+	for _, m := range c.allRegs() {
+		for _, l := range m.layers {
+			add(l.ref)
+		}
+		add(m.config.ref)
 	}
-	add(c.reg.config.ref)
 	for _, b := range c.content {
 		add(b.dig)
 	}
